@@ -18,7 +18,7 @@ from .. import rig as R, ref, gen, dump, hist
 from ..orch import h
 
 ID = "C15"
-TECHNIQUE = 'runtime monitoring - reference predicate for NIP-42 answers with an injected clock: ~90 single mutations of a valid answer, AUTH sequences and replays across connections, time-bound sweep with fractional clocks; challenge provenance tapped at secrets.token_hex, 10^5 challenges distinct'
+TECHNIQUE = 'runtime monitoring - reference predicate for NIP-42 answers with an injected clock: ~90 single mutations of a valid answer, AUTH sequences and replays across connections, time-bound sweep with fractional clocks; challenge provenance tapped at secrets.token_hex, 10^5 challenges distinct; end-to-end shard: challenges collected from the forked workers of a real preloaded gunicorn server (distinct, 128-bit hex, several workers observed by /proc placement), an answer replayed on a connection of another worker process'
 LEVEL = "exploration"
 RULE = (
     "cases = (relay_urls configured as list / as plain string / absent (default), backend SQL or LMDB, one AUTH payload "
